@@ -294,11 +294,14 @@ def run(R) -> None:
 
 
 def r4_crossrefs(R) -> None:
-    """Default range (C03.R7) and rendered read offsets (C01.R1): the rules are
-    owned by C03/C01 and re-evaluated here under this property."""
+    """Default range (C03.R7), lag/lead lengths (C03.R5) and rendered read
+    offsets (C01.R1): the rules are owned by C03/C01 and re-evaluated here."""
     try:
         from rules import c03
         c03.r7_default_range(R)
+        # LAGS/LEADS are taken over every indexed symbol (variables, parameters, errors): that is what
+        # makes every read in the default range fall inside the span
+        c03.r5_definition(R)
     except ImportError:
         R.inconclusive('C03.R7', 'rule module c03 not available')
     try:
